@@ -460,7 +460,13 @@ func (fg *FnGen) binop(fr *Frame, x *ssa.BinOp, reach *Term) *Term {
 			r := App("go_bv"+strings.ToLower(x.Op.String()), SInt, a, b)
 			switch x.Op {
 			case token.OR:
-				return App("go_bvor", SInt, a, b)
+				ro := App("go_bvor", SInt, a, b)
+				// facts of bitwise or that flag accumulation (x |= bit) needs: on {0,1} it is logical or; 0 is neutral
+				bit := func(t *Term) *Term { return Or(Eq(t, IntLit(0)), Eq(t, IntLit(1))) }
+				fg.assume(Implies(And(bit(a), bit(b)), Eq(ro, Ite(Or(Eq(a, IntLit(1)), Eq(b, IntLit(1))), IntLit(1), IntLit(0)))))
+				fg.assume(Implies(Eq(a, IntLit(0)), Eq(ro, b)))
+				fg.assume(Implies(Eq(b, IntLit(0)), Eq(ro, a)))
+				return ro
 			case token.XOR:
 				return App("go_bvxor", SInt, a, b)
 			case token.SHL:
